@@ -43,8 +43,10 @@ def c_ops_case(c):
         clist('{| v_file := %s; v_key := %s |}' % (cstr(v['file']), cstr(hashlib.sha1(v['key'].encode()).hexdigest()[:10])) for v in r['off']),
         clist('{| v_file := %s; v_key := %s |}' % (cstr(v['file']), cstr(hashlib.sha1(v['key'].encode()).hexdigest()[:10])) for v in r['on']))
         for r in c['ops'])
+    # size-boundary workspaces tabulate the lint query for a few files only (probed): the model speaks about those
+    probed = set(c['probed']) if c.get('probed') else None
     runs = clist('{| ro_n := %s; ro_file := %s; ro_viol := %s |}' % (cnat(len(s['files'])), cstr(f), c_viols(f, s['per_file'][f]))
-                 for s in c['subsets'] if not s.get('err') for f in s['files'])
+                 for s in c['subsets'] if not s.get('err') for f in s['files'] if probed is None or f in probed)
     return '{| oc_table := %s; oc_runs := %s |}' % (rows, runs)
 
 
@@ -369,6 +371,8 @@ def run(ctx):
         'compose_cases': len(composes), 'subsets_linted': nsub, 'partitions_checked': sum(c['partitions'] for c in composes),
         'reports_summary_checked': len(sums),
         'compose_sources': src_hist,
+        'size_boundary_workspaces': sorted(c['sized'] for c in composes if c.get('sized')),
+        'size_boundary_files_checked_per_file': sum(len(s['files']) for c in composes if c.get('sized') for s in c['subsets'] if not s.get('err') and len(s['files']) > 1),
         'pool_modules_offered': (pool or {}).get('offered', 0), 'pool_modules_unparsable': (pool or {}).get('unparsable', []),
         'bundled_rules': len(rules_info), 'rules_with_report_and_aggregate': both, 'h_ops_tested': h_ops_tested,
         'rules_triggered_by_a_module_linted_alone': len(trig_rules), 'rules_triggered': trig_rules,
